@@ -282,6 +282,12 @@ class Ctx:
         self.ghost = {}
         self.trace = []
         self.merge_guards = []    # z3 conditions of the merged branches being executed speculatively
+        self.side = []            # side obligations raised by the engine: (label, hyps, goal, note)
+
+    def side_obligation(self, label, goal, note=""):
+        """an obligation the executed code must satisfy for the engine's reading of it to be right
+        (e.g. two compressed arrays combined position-wise must be compressed by the same mask)"""
+        self.side.append((label, self.hyps(), goal, note))
 
     def assume(self, z):
         if isinstance(z, SV):
@@ -1956,6 +1962,22 @@ class Interp:
 
     def ex_For(self, node, env):
         it = self.ev(node.iter, env)
+        if hasattr(it, "generic_row") and getattr(self, "generic_loops", False):
+            # loop over the rows of a table/array: the body is executed once for the generic row (A-GENERIC):
+            # sound for bodies whose effect for row r depends only on row r (checked by the store model:
+            # every store goes through an index derived from the row itself)
+            if node.orelse:
+                raise EngineError("for/else over rows")
+            space, mask, e = it.generic_row()
+            if mask is not True:
+                self.ctx.assume(mask)
+            self.assign(node.target, e, env)
+            self.ctx.ghost.setdefault("generic_loops", []).append(node.lineno)
+            try:
+                self.ex_block(node.body, env)
+            except (_Break, _Continue):
+                raise EngineError("break/continue in a loop over rows")
+            return
         items = self.iterate(it)
         broke = False
         for x in items:
